@@ -54,6 +54,7 @@ class AsyncView:
         self.ar = AsyncRT(model)
         self.results: Dict[str, Result] = {}  # key: "node.push_step", "conn.push_zip", "node._stop._stopping", ...
         self.cls_of: Dict[str, str] = {}
+        self.fi_of: Dict[str, object] = {}
         for cls, key in ((NODE, "node"), (CONN, "conn")):
             ci = model.cls(cls)
             for name in ci.methods:
@@ -68,9 +69,14 @@ class AsyncView:
             fi = model.func(f"{cls}.{parent}")
             ev = SymEval(model, self_types={"self.input_node": NODE, "self.output_node": NODE})
             r = ev.run_function(fi)
-            c = r.env.get(clo)
+            # the task closure is the one handed to self._submit, whatever it is called (logical key keeps the reference name)
+            subm = [e for e in r.events if e.kind == "call" and e.name == "self._submit" and e.args and e.args[0][0] == "closure" and e.func == fi.qualname]
+            c = subm[0].args[0] if len(subm) == 1 else r.env.get(clo)
             if c is None or c[0] != "closure":
-                raise AnalysisError(f"closure {clo} not found in {cls}.{parent}")
+                raise AnalysisError(f"task closure ({clo}) not found in {cls}.{parent}")
+            cq = ev.closures[c[1]].qualname if c[1] in ev.closures else None
+            if cq and cq in model.functions:
+                self.fi_of[f"{key}.{parent}.{clo}"] = model.functions[cq]
             n0 = len(ev.events)
             ev.invoke(c, [], r.frame)
             sub = Result(ev, r.frame)
@@ -81,6 +87,8 @@ class AsyncView:
                              "conn": set(model.cls(CONN).methods) | set(model.cls(CONN).properties)}
 
     def fi(self, key: str):
+        if key in self.fi_of:
+            return self.fi_of[key]
         k, rest = key.split(".", 1)
         return self.model.func(f"{NODE if k == 'node' else CONN}.{rest}")
 
